@@ -126,6 +126,9 @@ func ZZH_C03_verify_proof() {
 
 // ZZH_C03_multisign: an IBTP relayed from another BitXHub (1357) is accepted only with more
 // than (n-1)/3 signatures by DISTINCT registered validators over the IBTP and its status.
+// Malformed entries (wrong length, junk) are skipped without bringing the node down (the call
+// runs on an unrecovered goroutine of BlockExecutor.verifyProofs).
+// zz:also C08
 func ZZH_C03_multisign() {
 	pl, _, lg := zzPool()
 	n := 1 + zz.Choice("validators", 4) // 1..4 registered validators (keys 0..n-1)
@@ -146,7 +149,18 @@ func ZZH_C03_multisign() {
 	bp := &pb.BxhProof{TxStatus: status}
 	good := map[int]bool{}
 	for j := 0; j < k; j++ {
-		signer := zz.Choice("signer", 5) // keys 0..4 (4 is never registered)
+		signer := zz.Choice("signer", 6) // keys 0..4 (4 is never registered); 5: malformed bytes
+		if signer == 5 {
+			// not a signature at all: 0, 64, 65 or 66 bytes of 0x00 or 0x1b
+			g := make([]byte, []int{0, 64, 65, 66}[zz.Choice("garbageLen", 4)])
+			if zz.Choice("garbageByte", 2) == 1 {
+				for x := range g {
+					g[x] = 0x1b
+				}
+			}
+			bp.MultiSign = append(bp.MultiSign, g)
+			continue
+		}
 		overWrong := zz.Choice("overWrongDigest", 2) == 1
 		d := digest
 		if overWrong {
@@ -161,7 +175,9 @@ func ZZH_C03_multisign() {
 	h := sha256.Sum256(proof)
 	ibtp.Proof = h[:]
 	tx := &pb.BxhTransaction{IBTP: ibtp, Extra: proof, TransactionHash: types.NewHashByStr("0x1111111111111111111111111111111111111111111111111111111111111111")}
-	ok, _, _ := pl.CheckProof(tx)
+	var ok bool
+	crashed, _ := zz.Crashed(func() { ok, _, _ = pl.CheckProof(tx) })
+	zz.Assert("C03.multisign.no-crash", !crashed)
 	threshold := (n - 1) / 3
 	zz.Cover("C03.multisign.accepted", ok)
 	zz.Cover("C03.multisign.rejected", !ok)
